@@ -123,6 +123,9 @@ COMMIT;
             )?
         }
         self.conn.pragma_update(None, "foreign_keys", 1)?;
+        // INSERT OR REPLACE deletes the older duplicate: its delete trigger must run, or the
+        // FTS index keeps a docid without row and every search reaching it fails
+        self.conn.pragma_update(None, "recursive_triggers", 1)?;
         if self.ignore_dups || user_version > 0 {
             self.set_ignore_dups()?;
         }
